@@ -75,6 +75,7 @@ class Analyzer:
             self.codec_sites[term] = id(node)
             run.emit("codec", streams[0], f, tuple(others), term, I.site(node))
             self.maybe_fault(run, "codec", term, I.site(node))
+            self.codec_may_raise(run, term, I.site(node))
             return Sym(term, "any", opaque_none=True, maybe_none=True, codec=f)
         atom = self.atom_for(f, args, kwargs, node, run)
         if atom is not None:
@@ -82,6 +83,33 @@ class Analyzer:
             return self.emit_atom(atom, f, args, kwargs, run, node)
         self.stats["inlined"] += 1
         return NotImplemented
+
+    CODEC_RAISES = {"r": ("kio.serial.errors:BufferUnderflow", "kio.serial.errors:UnexpectedNull", "kio.serial.errors:OutOfBoundValue",
+                          "UnicodeDecodeError", "ValueError", "OverflowError"),
+                    "w": ("kio.serial.errors:OutOfBoundValue", "TypeError", "struct.error", "UnicodeEncodeError", "OverflowError")}
+
+    def codec_may_raise(self, run, term, site):
+        """A reader/writer passed in as a value is not followed, but it may raise what readers/writers document.  When the call sits in
+        a `try` whose handler catches one of those, the raising case is a path of its own: the handler body must be explored."""
+        I = self.I
+        stack = getattr(I, "catch_stack", None)
+        if not stack:
+            return
+        for ref in self.CODEC_RAISES.get(self.direction, ()):
+            try:
+                if ":" in ref:
+                    mod, name = ref.split(":")
+                    cls = I.module(mod).env.vars.get(name)
+                else:
+                    cls = LibClass.get(ref)
+            except (Raised, Limit):
+                continue
+            if cls is None or not any(I.exc_matches(cls, ht) for hts in stack for ht in hts):
+                continue
+            if run.decide(("codec-raises", ref, term), site):
+                args = ("utf-8", b"\xff", 0, 1, "invalid start byte") if ref == "UnicodeDecodeError" else \
+                    ("utf-8", "\udcff", 0, 1, "surrogates not allowed") if ref == "UnicodeEncodeError" else ("raised by the field codec",)
+                raise Raised(InstV(cls, {"args": args}), site=site)
 
     # ------------------------------------------------------------------ fault injection (E5, thorough)
     def fault_exc(self, kind):
